@@ -10,6 +10,9 @@ from .values import Val, UnsupportedError
 # opaque constant depending on what it meets (dict key type, comparison partner, parameter type).
 
 
+STRLIT_MODE = ["opaque"]     # set per verified function from contract.strings
+
+
 def strlit(text):
     return Val(T.Ty("strlit", (), text), [])
 
@@ -70,6 +73,8 @@ _orig_unify = V.unify
 
 def unify(a, b):
     if is_strlit(a) and is_strlit(b):
+        if STRLIT_MODE[0] == "text":
+            return V.mk_str(a.ty.name), V.mk_str(b.ty.name)
         return V.opaque_const(a.ty.name), V.opaque_const(b.ty.name)
     if is_strlit(a):
         t = b.ty.args[0] if b.ty.kind == "opt" else b.ty
@@ -324,6 +329,12 @@ def contains(container, x, facts=None):
         return z3.Contains(container.t, coerce(x, T.STR).t)
     if k == "tuple":
         return z3.Or([V.eq(it, x) for it in V.tuple_items(container)]) if container.ty.args else z3.BoolVal(False)
+    if k in ("opaque", "strlit", "name"):
+        # substring test on text that is not modelled as an SMT string: an uninterpreted relation
+        from .speceval import apply_uf
+        a = coerce(container, T.OPAQUE) if k != "opaque" else container
+        b = coerce(x, T.OPAQUE) if x.ty.kind != "opaque" else x
+        return apply_uf("substring_of", T.BOOL, [b, a]).t
     raise UnsupportedError(f"`in` on {container.ty}")
 
 
